@@ -575,6 +575,23 @@ func TestC08(t *testing.T) {
 	if r.Lane == 0 {
 		quicLanes(r, "gating")
 	}
+	if r.Lane == 1%r.Lanes {
+		// the session closes while a candidate is entertained and the upgrade packet lands during
+		// the close (a slow application close listener keeps the window open)
+		for k := 0; k < r.N(4, 100); k++ {
+			for _, cause := range []string{"close-true", "peer-disconnect", "server-close", "transport-error"} {
+				key, msg := runC03UpgradeAfterClose(cause, r)
+				r.Case("upgrade-during-close/"+cause, true)
+				r.Obs("upgrade_during_close_cases", 1)
+				if key != "" {
+					if !strings.HasPrefix(key, "c08-") {
+						key = "c08-switch-on-closed-session"
+					}
+					r.Violation(key, msg, map[string]any{"lane": "upgrade packet lands while the session is closing", "cause": cause})
+				}
+			}
+		}
+	}
 	if r.Thorough() {
 		r.Exhaustive("all 4681 candidate scripts over the 8-symbol alphabet up to length 4, on both candidate kinds (the timing class per script is fixed)")
 	}
